@@ -1,0 +1,23 @@
+//go:build verif
+
+// Round 5, integration: the shared HTTP server start-up helper (nsqd, nsqlookupd and nsqadmin all serve through it).
+// Comment-only file, checked by /verif/cmd/nsqvc.
+
+package http_api
+
+// Serve: the server is built with the handler given and an error log only - in particular WITHOUT read / write / idle deadlines: the
+// views of nsqadmin legitimately wait for slow upstreams (C18 "partial view + warning" for every subset of failing upstreams) and /pub, /mpub
+// bodies may be large; a closed listener is a clean exit (nil), any other serve error is returned.
+//@ ghost r5mServes int
+//@ ghost r5mServeSrv *http.Server
+//@ ghostgroup r5mServes, r5mServeSrv
+//@ extern (*net/http.Server).Serve(srv, l) (err)
+//@   modifies r5mServes
+//@   onreturn r5mServes := r5mServes + 1
+//@   onreturn r5mServeSrv := srv
+//@ func Serve(listener net.Listener, handler http.Handler, proto string, logf lg.AppLogFunc) error
+//@   props C18 C10 C15 C17
+//@   requires listener != nil
+//@   ensures[served-once] r5mServes == old(r5mServes) + 1 && r5mServeSrv != nil && fresh(r5mServeSrv)
+//@   ensures[handler-as-given] r5mServeSrv.Handler == handler
+//@   ensures[no-deadlines] r5mServeSrv.ReadTimeout == 0 && r5mServeSrv.ReadHeaderTimeout == 0 && r5mServeSrv.WriteTimeout == 0 && r5mServeSrv.IdleTimeout == 0
